@@ -227,8 +227,10 @@ def startOp (fuel : Nat) (s : State) (ti : Nat) (op : Op) : State :=
   | fuel + 1 =>
     match op with
     | .start =>
+      -- a second start(): `if self.ident is not None: raise RuntimeError` before anything is touched
+      if s.dIdx.isSome then finishOp fuel s ti "raised:RuntimeError"
       -- `for emitter in self._emitters.copy(): emitter.start()` ... `super().start()`; no lock
-      startEmitters fuel s ti s.regEm
+      else startEmitters fuel s ti s.regEm
     | .join =>
       match s.dIdx with
       | none => finishOp fuel s ti "raised:RuntimeError"        -- cannot join thread before it is started
